@@ -43,18 +43,23 @@ def idp_strategy():
                                   'self_contained': st.booleans(), 'enc_keys': st.sampled_from([[2], [2, 3], [3, 2]]),
                                   'md': st.sampled_from(['generated', 'generated', 'use-less', 'signing+use-less', 'encryption-only']),
                                   # the caller may name the certificate to encrypt for (e.g. the one carried in a PEFIM request): pool index, or None = the SP's metadata certificate
-                                  'explicit': st.sampled_from([None, None, None, 3, 4, 2])})
+                                  'explicit': st.sampled_from([None, None, None, 3, 4, 2]),
+                                  # how the wish to encrypt reaches the IdP: as an argument of the call, or as `encrypt_assertion` in its service/idp configuration
+                                  'asked_by': st.sampled_from(['argument', 'argument', 'config']),
+                                  # what the deployment did with the live configuration object before: nothing / rendered its own metadata from it (the entity also serves aa)
+                                  'before': st.sampled_from([None, None, 'metadata-rendered'])})
 
 
-def pair(enc_keys, md='generated'):
-    k = (tuple(enc_keys), md)
+def pair(enc_keys, md='generated', conf_encrypt=False):
+    k = (tuple(enc_keys), md, conf_encrypt)
     if k not in _pairs:
-        sp, idp, spmd, idpmd = world.pair({'enc_keys': list(enc_keys), 'want_response_signed': False}, None)
+        idp_spec = {'encrypt_assertion': True, 'aa': [('https://idp.verif.example/aa', world.SOAP)]} if conf_encrypt else None
+        sp, idp, spmd, idpmd = world.pair({'enc_keys': list(enc_keys), 'want_response_signed': False}, idp_spec)
         if md != 'generated':
             # SP metadata as other products write it: key descriptors without a use attribute serve signing and encryption
             keys = {'use-less': [(None, enc_keys[0])], 'signing+use-less': [('signing', 0), (None, enc_keys[0])], 'encryption-only': [('encryption', enc_keys[0])]}[md]
             spmd = build.entity_xml({'entityid': spside.SP, 'sp': {'keys': keys, 'acs': [(world.POST, spside.ACS_POST, 0, True)]}})
-            idp = world.make_idp(world.idp_conf(dict(world.DEFAULT_IDP), [spmd]))
+            idp = world.make_idp(world.idp_conf(dict(world.DEFAULT_IDP, **(idp_spec or {})), [spmd]))
         clock.install()
         _pairs[k] = (sp, idp)
     return _pairs[k]
@@ -62,15 +67,19 @@ def pair(enc_keys, md='generated'):
 
 def run_idp(case):
     from saml2_tophat import saml
-    sp, idp = pair(case['enc_keys'], case.get('md', 'generated'))
+    by_conf = case.get('asked_by') == 'config' or case.get('before') is not None
+    sp, idp = pair(case['enc_keys'], case.get('md', 'generated'), by_conf)
     clock.set_now(NOW)
     identity = dict((k, list(v)) for k, v in case['identity'].items())
     mode = case['mode']
+    if case.get('before') == 'metadata-rendered':
+        from saml2_tophat.metadata import entity_descriptor
+        entity_descriptor(idp.config)
     kw = dict(in_response_to='id-req-1', destination=spside.ACS_POST, sp_entity_id=spside.SP,
               name_id=saml.NameID(format=saml.NAMEID_FORMAT_PERSISTENT, text=case['name_id']),
               authn={'class_ref': build.PASSWORD, 'authn_auth': 'https://idp.verif.example/login'},
               sign_response=case['sign_response'], sign_assertion=case['sign_assertion'], encrypt_assertion_self_contained=case['self_contained'])
-    if mode in ('assertion', 'both'):
+    if mode in ('assertion', 'both') and case.get('asked_by') != 'config':
         kw['encrypt_assertion'] = True
     if mode in ('advice', 'both'):
         kw['encrypted_advice_attributes'] = True
@@ -130,7 +139,8 @@ def run_idp(case):
     got = dict((k, sorted(vs)) for k, vs in v[1].ava.items())
     if got != dict((k, sorted(vs)) for k, vs in identity.items()):
         raise Violation('sp-reads-different-identity', 'asserted %r, SP read %r' % (identity, got))
-    return 'emitted|%s|%s%s|md-%s' % (mode, 'R' if case['sign_response'] else '', 'A' if case['sign_assertion'] else '', case.get('md', 'generated')), True
+    return 'emitted|%s|%s%s|md-%s%s%s' % (mode, 'R' if case['sign_response'] else '', 'A' if case['sign_assertion'] else '', case.get('md', 'generated'),
+                                          '|by-config' if case.get('asked_by') == 'config' else '', '|after-metadata' if case.get('before') else ''), True
 
 
 # ------------------------------------------------------------------ SP half
